@@ -453,7 +453,7 @@ def jobs_restart(prop, tier):
     js = []
     for n in ([0, 2] if q else [0, 1, 2, 3]):
         shapes = [([1, 2, 1], [2, 1, 2]), ([2, 1, 1], [1, 1, 2])] if q else [([1, 2, 1], [2, 1, 2]), ([1, 1, 1], [1, 1, 1]), ([2, 3, 2], [1, 3, 1])]
-        for kg, ug in shapes:
+        for kg, ug in (shapes[:1] if n >= 3 else shapes):  # n = 3 costs ~10 min CPU per job: one gap shape
             for smn in (range(8) if n else [None]):
                 js.append({"name": f"restart_step[n={n},k={''.join(map(str, kg))}" + (f",smn={smn}]" if smn is not None else "]"), "module": "harness.persist", "fn": "restart_step", "params": {"n": n, "prop": prop, "kgaps": kg, "ugaps": ug, "smn": smn}, "timeout": T, "per_path": 90, "unblock": UNBLOCK})
     return js
